@@ -1,13 +1,90 @@
 (* C14 — typed-data hashing is total on arbitrary documents and never misreads a number.
-   Statements only; proofs live in Eip712/TotalProofs*.v and Eip712/NumericProofs.v. *)
+   Statements only; proofs live in Eip712/TotalProofsInput.v, TotalProofs.v, NumericProofs.v,
+   SpellingProofs.v.  [H] is the hash function (keccak256 in the implementation), [big_other] the
+   answers of math/big on numeric texts outside the decimal / 0x-hex / scientific grammars,
+   [sign_direct] the signer: all arbitrary. *)
+From Coq Require Import String.
 From Coq Require Import List NArith ZArith Bool.
 From Coq Require Import Init.Byte.
-From FFS Require Import Base.Res Base.Bytes Eip712.Input Eip712.TotalProofsInput.
+From FFS Require Import Base.Res Base.Bytes Abi.Spec.
+From FFS Require Import Eip712.Util Eip712.Input Eip712.Numeric Eip712.Coerce Eip712.Model.
+From FFS Require Import Eip712.TotalProofsInput Eip712.TotalProofs Eip712.NumericProofs Eip712.SpellingProofs.
 Import ListNotations.
 
-(* Decoding any JSON tree offered as a typed-data document — into a TypedData value or through a
-   *TypedData pointer — returns a value or an error, never a panic. *)
-Theorem C14_decode_total :
-  forall doc : json, decode_typed_data doc <> Panic /\ decode_typed_data_ptr doc <> Panic.
-Proof. intros doc; split; [apply decode_typed_data_total | apply decode_typed_data_ptr_total]. Qed.
-Print Assumptions C14_decode_total.
+(* 1. Totality.  Any JSON tree offered as the document — decoded into a TypedData value and hashed,
+      or decoded through a *TypedData pointer and signed — gives a digest/signature or an error,
+      never a panic.  (The only hypothesis: the signer returns R and S below 2^256.) *)
+Theorem C14_total :
+  forall (H : bytes -> bytes) (big_other : bytes -> option Z) (sign_direct : bytes -> option (Z * Z * Z))
+         (doc : json),
+    (do td <- decode_typed_data doc; EncodeTypedDataV4 H big_other (Some td)) <> Panic /\
+    (signer_in_range sign_direct ->
+     (do p <- decode_typed_data_ptr doc; SignTypedDataV4 H big_other sign_direct p) <> Panic).
+Proof.
+  intros H o sd doc. split; [apply hash_document_total | apply sign_document_total].
+Qed.
+Print Assumptions C14_total.
+
+(* 1b. The same for every value of the Go types, however it was built (nil payload, nil maps, nil
+      member lists, nil members, undefined / cyclic / malformed type names ...). *)
+Theorem C14_total_any_payload :
+  forall H big_other (payload : option typed_data), EncodeTypedDataV4 H big_other payload <> Panic.
+Proof. exact EncodeTypedDataV4_total. Qed.
+Print Assumptions C14_total_any_payload.
+
+(* 2. The three spellings.  For every integer z (no bound) the canonical decimal text as a JSON number,
+      the same text as a string, and the canonical 0x-hex string are read as exactly z ... *)
+Theorem C14_spellings_read_exactly :
+  forall big_other (z : Z),
+    integer_of_gval big_other (GNumber (dec_text z)) = Ok z /\
+    integer_of_gval big_other (GString (dec_text z)) = Ok z /\
+    integer_of_gval big_other (GString (hex_text z)) = Ok z.
+Proof. exact spellings_read_exactly. Qed.
+Print Assumptions C14_spellings_read_exactly.
+
+(*    ... and at a member whose type the ABI parser reads as int<M>/uint<M> the three give the same
+      encoding: the 32-byte two's-complement word of z when z is in range of the type, the same error
+      when it is not. *)
+Theorem C14_spellings_agree :
+  forall H big_other allTypes fuel tn tc (z : Z),
+    integer_member_type allTypes tn tc ->
+    let r := if in_range (is_signed (e_base tc)) (e_m tc) z then Ok (word z)
+             else Err (if is_signed (e_base tc) then ETooLarge
+                       else if (z <? 0)%Z then ENegativeUnsigned else ETooLarge) in
+    encodeElement H big_other allTypes (S fuel) tn (GNumber (dec_text z)) = r /\
+    encodeElement H big_other allTypes (S fuel) tn (GString (dec_text z)) = r /\
+    encodeElement H big_other allTypes (S fuel) tn (GString (hex_text z)) = r.
+Proof. exact spellings_agree_element. Qed.
+Print Assumptions C14_spellings_agree.
+
+(* 3. Never a different value.  Whatever value sits at an integer member: if it is encoded at all,
+      the coercion read an integer z from it, z is in range of the type and the bytes are the word of
+      z; and for a text in the decimal / hex / scientific grammars (every JSON number is) z is exactly
+      what the text denotes — a fraction, or m * 10^n that is not an integer, is not read at all. *)
+Theorem C14_inexact_rejected :
+  forall H big_other allTypes fuel tn tc v w,
+    integer_member_type allTypes tn tc ->
+    encodeElement H big_other allTypes (S fuel) tn v = Ok w ->
+    exists z, integer_of_gval big_other v = Ok z /\
+              in_range (is_signed (e_base tc)) (e_m tc) z = true /\ w = word z /\
+              (forall t, (v = GNumber t \/ v = GString t) -> classify t <> COther -> text_denotes t z).
+Proof.
+  intros H o all fuel tn tc v w Hty Hw.
+  destruct (integer_member_sound H o all fuel tn tc v w Hty Hw) as [z [Hz [Hr Hword]]].
+  exists z. repeat split; try assumption.
+  intros t [-> | ->] Hc; apply (BigIntegerFromString_sound o t z Hc Hz).
+Qed.
+Print Assumptions C14_inexact_rejected.
+
+(* non-vacuity *)
+Example C14_nonvacuous :
+  integer_member_type [] (bs "int256") (mkEtc EInt 256 (bs "256")) /\
+  dec_text (2 ^ 63) = bs "9223372036854775808" /\ hex_text (2 ^ 63) = bs "0x8000000000000000" /\
+  in_range true 256 (2 ^ 63) = true /\
+  encodeElement (fun _ => []) (fun _ => None) [] 1 (bs "int256") (GNumber (bs "9223372036854775808")) = Ok (word (2 ^ 63)) /\
+  (exists e, encodeElement (fun _ => []) (fun _ => None) [] 1 (bs "uint8") (GNumber (bs "1.5")) = Err e) /\
+  (exists e, encodeElement (fun _ => []) (fun _ => None) [] 1 (bs "uint8") (GNumber (bs "256")) = Err e) /\
+  text_denotes (bs "12.50e1") 125.
+Proof.
+  repeat split; try (vm_compute; reflexivity); try (eexists; vm_compute; reflexivity).
+Qed.
